@@ -18,7 +18,7 @@ from xdstat.context import Ctx                                     # noqa: E402
 from xdstat.report import Report                                   # noqa: E402
 
 CLAIMED = ['C01', 'C02', 'C03', 'C04', 'C05', 'C06', 'C07', 'C08', 'C09', 'C10',
-           'C11', 'C12', 'C13', 'C14', 'C15', 'C16', 'C17', 'C18', 'C19']
+           'C11', 'C12', 'C13', 'C14', 'C15', 'C16', 'C17', 'C18', 'C19', 'C20']
 
 
 def run_property(prop, prog, tier, seed, evidence_dir=None, quiet=False):
